@@ -153,6 +153,16 @@ func runC19(c *ctx) error {
 	if err := signature.SignSteps(context.Background(), sharedPipe.Steps, k.signer, "repo", signature.WithEnv(penv)); err != nil {
 		return err
 	}
+	// the field list as another implementation might have written it: same set, another order (verification
+	// must not care, and must not rewrite it)
+	for _, cs := range commandStepsOf(sharedPipe.Steps) {
+		if cs.Signature != nil {
+			fs := cs.Signature.SignedFields
+			for i, j := 0, len(fs)-1; i < j; i, j = i+1, j-1 {
+				fs[i], fs[j] = fs[j], fs[i]
+			}
+		}
+	}
 	_, pubSet, _ := jwkutil.NewKeyPair("shared", "EdDSA")
 	readers := func() string {
 		var b strings.Builder
@@ -248,6 +258,61 @@ func runC19(c *ctx) error {
 		c.res.Case("observer-frame:"+before, true)
 	}
 	c.res.Hist("observer-frame-maps")
+	// ---------- (d) steps of one parsed document are distinct objects, also when the document spells them
+	// through one anchor: concurrent in-place work on different steps == the same work done one by one ----------
+	{
+		var doc strings.Builder
+		doc.WriteString("common:\n  agents: &agents\n    queue: \"build-{{matrix}}\"\n    tags: [\"t-{{matrix}}\", x]\nsteps:\n")
+		nSteps := 16
+		for i := 0; i < nSteps; i++ {
+			fmt.Fprintf(&doc, "  - command: \"echo {{matrix}}\"\n    matrix: [v%d]\n    agents: *agents\n    notify: [*agents]\n", i)
+		}
+		work := func(st pipeline.Step, i int) string {
+			cs, ok := st.(*pipeline.CommandStep)
+			if !ok {
+				return "not-a-command-step"
+			}
+			if err := cs.InterpolateMatrixPermutation(pipeline.MatrixPermutation{"": fmt.Sprintf("v%d", i)}); err != nil {
+				return "error: " + err.Error()
+			}
+			b, _ := json.Marshal(cs)
+			return string(b)
+		}
+		for round := 0; round < rounds; round++ {
+			pSeq, _ := pipeline.Parse(strings.NewReader(doc.String()))
+			pCon, _ := pipeline.Parse(strings.NewReader(doc.String()))
+			if pSeq == nil || pCon == nil || len(pSeq.Steps) != nSteps || len(pCon.Steps) != nSteps {
+				break
+			}
+			got := make([]string, nSteps)
+			var wg sync.WaitGroup
+			for i := range pCon.Steps {
+				wg.Add(1)
+				go func(i int) {
+					defer wg.Done()
+					defer func() {
+						if r := recover(); r != nil {
+							got[i] = fmt.Sprint("panic: ", r)
+						}
+					}()
+					got[i] = work(pCon.Steps[i], i)
+				}(i)
+			}
+			wg.Wait()
+			for i := range pSeq.Steps {
+				// the sequential reference works on a fresh parse per step, so nothing another step did can show
+				pRef, _ := pipeline.Parse(strings.NewReader(doc.String()))
+				want := work(pRef.Steps[i], i)
+				c.res.OracleChecks++
+				if got[i] != want {
+					c.res.Fail(core.OracleFailure{What: "concurrent in-place work on distinct steps of one parsed document differs from doing it step by step", Input: doc.String(), Got: firstDiff(got[i], want)})
+					break
+				}
+			}
+			c.res.Case(fmt.Sprintf("aliased-steps-round-%d", round), true)
+			c.res.Hist("rounds.distinct-steps-of-one-document")
+		}
+	}
 	// ---------- race detector reports ----------
 	raceBuilt := raceEnabled
 	if logs, _ := filepath.Glob(os.Getenv("VERIF_RACE_LOG") + "*"); os.Getenv("VERIF_RACE_LOG") != "" {
